@@ -96,7 +96,7 @@ class EvenAsphere(NewtonRaphsonGeometry):
             dict: The dictionary representation of the geometry.
         """
         data = super().to_dict()
-        data["coefficients"] = self.c
+        data["coefficients"] = list(self.c)
 
         return data
 
